@@ -188,6 +188,19 @@ OPTLO = int(os.environ.get("VERIF_OPTLO", "0"))
 OPTHI = int(os.environ.get("VERIF_OPTHI", "5"))
 
 
+CHOICEKIND = os.environ.get("VERIF_CHOICE", "small")      # small: 0,1,2   big: 1000..1002 (equal but not identical objects)   str
+
+
+def _choice_values():
+    """(choice list, default, value for code c) - for 'big' and 'str' every value is built at run time, so equal values are
+    distinct objects (an identity comparison instead of equality then misclassifies the default)"""
+    if CHOICEKIND == "big":
+        return [int("1000"), int("1001"), int("1002")], int("1000"), (lambda c: 1000 + c)
+    if CHOICEKIND == "str":
+        return ["".join(["."] * 2), "".join(["a", "1"]), "".join(["b", "2"])], "".join(["..", ""]), (lambda c: ["..", "a1", "b2"][c][:2] + "")
+    return [0, 1, 2], 0, (lambda c: c)
+
+
 def h_neighbors(c0: int, c1: int, c2: int, c3: int, d0: int, d1: int, opt: int) -> bool:
     """
     ArrayBuilder2D on a BH x BW board (<= 4 cells), current grid symbolic over the choice set, PRNG draws symbolic:
@@ -198,18 +211,24 @@ def h_neighbors(c0: int, c1: int, c2: int, c3: int, d0: int, d1: int, opt: int) 
     post: _
     """
     H, W = BH, BW
-    choice = [0, 1, 2]
+    choice, default, val = _choice_values()
     sym = opt in (1, 3, 5)
     adj = opt in (2, 3)
     move = opt in (4, 5)
-    b = ArrayBuilder2D(H, W, choice, default=0, symmetry=sym, disallow_adjacent=adj, use_move=move)
-    cur = _grid([c0, c1, c2, c3][:H * W], H, W)
-    if adj:
-        # start from a grid that already respects the adjacency option
-        for y in range(H):
-            for x in range(W):
-                if cur[y][x] != 0 and ((x + 1 < W and cur[y][x + 1] != 0) or (y + 1 < H and cur[y + 1][x] != 0)):
-                    return True
+    b = ArrayBuilder2D(H, W, choice, default=default, symmetry=sym, disallow_adjacent=adj, use_move=move)
+    codes = [c0, c1, c2, c3][:H * W]
+    cur = _grid([val(c) for c in codes], H, W)
+
+    def nd(g, y, x):
+        return g[y][x] != default
+
+    def symmetric(g):
+        return all(nd(g, y, x) == nd(g, H - 1 - y, W - 1 - x) for y in range(H) for x in range(W))
+
+    def crowded(g):
+        return any(nd(g, y, x) and ((x + 1 < W and nd(g, y, x + 1)) or (y + 1 < H and nd(g, y + 1, x))) for y in range(H) for x in range(W))
+    if adj and crowded(cur):
+        return True          # start from a grid that already respects the adjacency option
     if move:
         srandom.use_deterministic_prng(True, seed=5)     # 10 draws per cell: kept concrete (the real xorshift stream)
     else:
@@ -234,13 +253,10 @@ def h_neighbors(c0: int, c1: int, c2: int, c3: int, d0: int, d1: int, opt: int) 
         for (y, x), v in final.items():
             if nxt[y][x] != v:
                 return False
-        if sym and _pattern_symmetric(cur, H, W) and not _pattern_symmetric(nxt, H, W):
+        if sym and symmetric(cur) and not symmetric(nxt):
             return False
-        if adj and any(v != 0 for (_, _, v) in upd):
-            for y in range(H):
-                for x in range(W):
-                    if nxt[y][x] != 0 and ((x + 1 < W and nxt[y][x + 1] != 0) or (y + 1 < H and nxt[y + 1][x] != 0)):
-                        return False
+        if adj and any(v != default for (_, _, v) in upd) and crowded(nxt):
+            return False
     return True
 
 
